@@ -11,6 +11,10 @@ def read_maps(path):
             e = tlc.parse_tla_value(line)
             if e[0] == "M":
                 maps.append((e[1], e[2]))
+    # the emitted lines are sorted (harness/tlc.py): lexicographic neighbours share rows and signs, and an arithmetic
+    # stride through them can miss whole sign patterns -- fixed shuffle, so that position carries no structure
+    import random
+    random.Random(20261004).shuffle(maps)
     return maps
 
 
